@@ -79,6 +79,8 @@ def main():
                and os.path.exists(os.path.join(VERIF, "hipposa", "rules", p.lower() + ".py"))]
     na_path = os.path.join(VERIF, "tools", "not_applicable.json")
     na_fixed = json.load(open(na_path)) if os.path.exists(na_path) else {}
+    rd_path = os.path.join(VERIF, "tools", "rules_desc.json")
+    rules_desc = json.load(open(rd_path)) if os.path.exists(rd_path) else {}
     checks = []
     for p in claimed:
         if p in na_fixed:
@@ -96,10 +98,13 @@ def main():
                 "category": "translation_validation" if p == "C13" else "other",
                 "text": (f"Static analysis of /repo's current source, universally quantified over paths and table rows "
                          f"(not over runtime values). Decides these necessary structural clauses of {p}: {decided}. "
+                         f"Rules as built ({len(rules_desc.get(p, []))}; catalogue in RULES.md): "
+                         f"{', '.join(r['id'] for r in rules_desc.get(p, []))}. "
                          f"Does NOT decide: {undecided}. A violated clause provably breaks the property; a passing "
                          f"run shows the structural part holds on every path/row of the current tree. The thorough tier "
                          f"additionally self-tests every rule against a corpus of breaking and behaviour-preserving "
-                         f"edits (and the seeded changes under /verif/seeded) applied to an in-memory overlay."),
+                         f"edits, the independently seeded changes under /verif/seeded and the behaviour-preserving "
+                         f"refactorings under /verif/refactors, all applied to an in-memory overlay of the current tree."),
                 "design_ref": f"DESIGN.md section 4 ({p}) and section 8",
             },
             "level_note": ("Trusted base: CPython ast, the checker's CFG / class-hierarchy construction (by-name "
